@@ -5,9 +5,10 @@
     tests bytes.  They agree because every accepted character is ASCII and
     every rune that comes out of a non-ASCII byte is >= 128.  Candidates for
     the counterexample search: CodeCands.v. *)
+From Coq Require Import String.
 From Coq Require Import List NArith ZArith Bool Lia.
 From Coq Require Import ZifyN ZifyNat ZifyBool.
-From Verif Require Import Lib.Bytes Lib.Codec Lib.Path Lib.Utf8 Lib.GoLib Obj.Base Gen.CodeObj Obj.CodeCands.
+From Verif Require Import Lib.Bytes Lib.Codec Lib.Path Lib.Utf8 Lib.GoLib Obj.Base Obj.CheckReader Obj.CheckReaderProofs Gen.CodeObj Obj.CodeCands.
 Import ListNotations.
 Local Open Scope N_scope.
 Ltac Zify.zify_post_hook ::= Z.div_mod_to_equations.
@@ -88,5 +89,65 @@ Lemma code_hex_key_valid : forall d,
   is_bytes d -> length d = 32%nat -> gen_objects_isValidKey (hex_encode d) = true.
 Proof. intros d Hb Hl. rewrite gen_isValidKey_is_model. now apply hex_key_valid. Qed.
 
-Lemma cex_obj_none : cex_isValidKey = [].
-Proof. vm_compute. reflexivity. Qed.
+(** ** hashutil.CheckReader.Read (check_reader.go)
+
+    One call of [Read] as it is written NOW, given what the underlying
+    reader did (it put [n] bytes into [buf], [0 <= n <= len(buf)], and
+    returned [st]): the status passed on, the running count [r.n] (an [int64],
+    wrapping) and everything written to the hash [r.h] are the model's
+    [cr_read], for every digest function [D] (sha256's [Sum] is a Section
+    variable of the generated file).  The receiver's fields [r.n] and [r.h]
+    are assigned by the body; the generated definition returns their final
+    values. *)
+Local Open Scope Z_scope.
+
+Lemma firstn_nil_iff {A} (n : nat) (l : list A) : (n <= List.length l)%nat -> firstn n l = [] <-> n = 0%nat.
+Proof.
+  intros H. split; [|intros ->; reflexivity].
+  intros E. apply (f_equal (@List.length A)) in E. rewrite firstn_length in E. cbn in E. lia.
+Qed.
+
+Lemma gen_CheckReader_Read_is_model : forall (D : bytes -> bytes) (r : cr) (buf : bytes) (n : Z) (st : rstat),
+  0 <= n <= go_len buf -> go_sized buf ->
+  run_Read D r buf n st = model_Read D r buf n st.
+Proof.
+  intros D r buf n st Hn Hsz. unfold go_sized in Hsz.
+  unfold run_Read, model_Read, gen_hashutil_CheckReader_Read, cr_read, subtle_ConstantTimeCompare.
+  change bytes_eqb with beq_bytes. change wrap64 with wrap_i64.
+  rewrite (wrap_i64_small n) by (unfold is_i64, two63z, go_len in *; lia).
+  rewrite go_slice_to by exact Hn.
+  assert (Hl : List.length (firstn (Z.to_nat n) buf) = Z.to_nat n)
+    by (rewrite firstn_length; unfold go_len in *; lia).
+  unfold lenZ. 
+  destruct (Z.gtb_spec n 0) as [Hp|Hp].
+  - destruct (firstn (Z.to_nat n) buf) as [|c0 ch] eqn:E; [cbn in Hl; lia|]. rewrite <- E in *. rewrite Hl.
+    rewrite Z2Nat.id by lia.
+    destruct st; cbn [err_of_rstat opt_eqb go_err_eqb String.eqb Ascii.eqb Bool.eqb andb cr_n cr_acc cr_want cr_wantlen].
+    all: go_cases; cbn [cstat_of String.eqb Ascii.eqb Bool.eqb andb cr_n cr_acc cr_want cr_wantlen];
+      rewrite ?Hl, ?Z2Nat.id by lia; go_leaf.
+  - assert (n = 0) as -> by lia. cbn [Z.to_nat firstn List.length Z.of_nat].
+    destruct st; cbn [err_of_rstat opt_eqb go_err_eqb String.eqb Ascii.eqb Bool.eqb andb cr_n cr_acc cr_want cr_wantlen].
+    all: go_cases; cbn [cstat_of String.eqb Ascii.eqb Bool.eqb andb cr_n cr_acc cr_want cr_wantlen];
+      rewrite ?Hl, ?Z2Nat.id by lia; go_leaf.
+Qed.
+
+(** Read over the code: as long as fewer than 2^63 bytes have gone through,
+    the status [Read] passes on is the verdict on EVERYTHING read so far —
+    io.EOF exactly when the declared length (if any) and the digest match —
+    and the bytes handed to the caller are the underlying reader's. *)
+Lemma code_Read_verdict : forall (D : bytes -> bytes) (r : cr) (buf : bytes) (n : Z) (st : rstat),
+  0 <= n <= go_len buf -> go_sized buf ->
+  cr_ok r -> lenZ (cr_acc r ++ firstn (Z.to_nat n) buf) < two63Z ->
+  run_Read D r buf n st =
+    (n, verdict D (cr_wantlen r) (cr_want r) (cr_acc r ++ firstn (Z.to_nat n) buf) st,
+     lenZ (cr_acc r ++ firstn (Z.to_nat n) buf), cr_acc r ++ firstn (Z.to_nat n) buf).
+Proof.
+  intros D r buf n st Hn Hsz Hok Hsm.
+  rewrite gen_CheckReader_Read_is_model by assumption. unfold model_Read.
+  destruct (cr_read_spec D r (firstn (Z.to_nat n) buf) st Hok Hsm) as (r' & E & [Hn' _] & Ha & _ & _).
+  rewrite E. rewrite Hn', Ha. f_equal. f_equal. f_equal.
+  rewrite firstn_length. unfold go_len in *. lia.
+Qed.
+
+Lemma cex_obj_none : cex_isValidKey = [] /\ cex_CheckReader_Read = [].
+Proof. vm_compute. split; reflexivity. Qed.
